@@ -66,3 +66,81 @@ def tier_seed(argv_tier):
     except ValueError:
         seed = 0
     return tier, seed
+
+
+# ---------------------------------------------------------------------------------------------
+# generic "state oracle on every reachable state" property runner
+
+class StateSpec(engine.Spec):
+    """on_state = fn(conf, hist, G, M) -> (list of (sub, sig, detail), counters, sets)"""
+
+    def __init__(self, prop, fn):
+        self.prop = prop
+        self.fn = fn
+
+    def on_state(self, conf, hist, G, M):
+        trip, cnt, sets = self.fn(conf, hist, G, M)
+        viols = [common.Violation(self.prop, sub, dict(sig, cls=conf['cls'], mode='rm' if conf['removal'] else 'acc'),
+                                  case_of(conf, hist), det) for (sub, sig, det) in trip]
+        return viols, cnt, sets
+
+
+def run_state_property(prop, level, fn, tier, seed, classes=('DynGraph', 'DynDiGraph'), modes=(True,),
+                       which=('U1', 'U2', 'TWO', 'U3'), flavours=(0, 1, 2, 3), rule='', params=None,
+                       assumptions=(), vacuity=None, sample_fn=None):
+    known = common.load_known()
+    rep = common.Report(prop, tier, seed, level)
+    p = dict(tier_params(tier))
+    if params:
+        p.update(params)
+    spec = StateSpec(prop, fn)
+    sums = {}
+    for fl in flavours_for(tier, seed, flavours):
+        for cls in classes:
+            for removal in modes:
+                conf = U.conf_make(cls, removal, fl, p['w'])
+                total, summary = explore_universes(spec, conf, tier, which=which, params=params)
+                rep.cov['per_universe'] += summary
+                rep.cov['states'] += total.states
+                rep.cov['transitions'] += total.transitions
+                for k, v in total.counters.items():
+                    sums[k] = sums.get(k, 0) + v
+                for k, v in total.sets.items():
+                    sums['distinct_' + k] = sums.get('distinct_' + k, 0) + len(v)
+                rep.add_violations(total.violations, known)
+    rep.cov['traces_validated_against_impl'] = rep.cov['transitions']
+    rep.cov['evaluations'] = sums.get('evaluations', rep.cov['states'])
+    rep.cov['distinct_nontrivial'] = sums.get('nontrivial', 0)
+    rep.cov['counters'] = sums
+    if vacuity:
+        for name, least in vacuity.items():
+            if sums.get(name, 0) < least:
+                rep.broken.append('%s = %d < %d: the exploration did not exercise what the property is about'
+                                  % (name, sums.get(name, 0), least))
+    if sample_fn:
+        for s in sample_fn(p):
+            rep.sample(s)
+    rep.assumptions = ['PYTHONHASHSEED=0', 'deterministic library; state key = structural walk of G.__dict__ + model',
+                       "the state's own has_interaction matrix is taken as the presence relation"] + list(assumptions)
+    return rep.finish(known, rule)
+
+
+def replay_state_property(prop, fn, case):
+    conf = case['conf']
+    hist = U.hist_from_json(case['history'])
+    G, M, outs = engine.execute(conf, hist)
+    trip, _, _ = fn(conf, hist, G, M)
+    return [common.Violation(prop, sub, dict(sig, cls=conf['cls'], mode='rm' if conf['removal'] else 'acc'),
+                             case_of(conf, hist), det) for (sub, sig, det) in trip]
+
+
+def default_samples(p):
+    out = []
+    for cls in ('DynGraph', 'DynDiGraph'):
+        conf = U.conf_make(cls, True, 0, p['w'])
+        for h in U.seeds_U3(conf)[:2]:
+            G, M, outs = engine.execute(conf, h)
+            out.append({'conf': U.conf_name(conf), 'calls': [U.op_concrete(conf, op) for op in h],
+                        'outcomes': [o[0] for o in outs], 'stream': repr(list(G.stream_interactions())),
+                        'snapshot_ids': list(G.temporal_snapshots_ids())})
+    return out
